@@ -288,10 +288,11 @@ fn same_violation(o: &Outcome, v: &Violation) -> bool {
 pub fn minimise(prop: &dyn Prop, case: &Value, v: &Violation, budget: usize) -> (Value, usize) {
     let mut cur = case.clone();
     let mut used = 0;
+    let started = Instant::now();
     'outer: loop {
         let cands = prop.shrink(&cur);
         for c in cands {
-            if used >= budget {
+            if used >= budget || started.elapsed().as_secs() > 40 {
                 break 'outer;
             }
             if c == cur {
@@ -443,7 +444,7 @@ pub fn check(prop: &dyn Prop, tier: Tier, seed: u64) -> i32 {
             continue;
         }
         let case = &br.outcomes[idx].0;
-        let (min_case, used) = minimise(prop, case, v, 200);
+        let (min_case, used) = minimise(prop, case, v, 120);
         let path = write_replay(prop, seed, tier, &min_case, v, *idx);
         if !replay_in_fresh_process(&path) {
             eprintln!(
